@@ -4,7 +4,7 @@ import nodecheck
 PROFILE = dict(outbound=0.1)
 W = nodecheck.weights(bad_request=7, request=7, accept=4, cer=8)
 N_QUICK, N_THOROUGH, LENGTH = 60, 1500, 16
-THEMES = (("ready", 2, 60, 2, 3000), ("answers", 250, 0, None, 0), ("realms", None, 0, None, 0), ("default_peer", None, 0, None, 0), ("comeback", None, 0, None, 0))
+THEMES = (("ready", 2, 60, 2, 3000), ("answers", 250, 0, None, 0), ("realms", 500, 0, None, 0), ("default_peer", None, 0, None, 0), ("comeback", None, 0, None, 0))
 FILES = ["Props/C08.v"]
 
 
